@@ -6,6 +6,8 @@ import Gotree.Model.C19PreRun
 import Gotree.Model.C19Glue
 import Gotree.Gen.C19Writes
 import Gotree.Gen.C19Changed
+import Gotree.Model.C19IO
+import Gotree.Gen.C19Sentinels
 
 /-
   Driver of C19.  Case lines (harness/c19):
@@ -24,6 +26,8 @@ import Gotree.Gen.C19Changed
                flag "*" (type "all"): every option the template omits spelled out at once
     C19.changed rows            table (f): tests of whether an option was GIVEN (harness changed.go)
     C19.writes rows             table (e): assignments to option variables after parsing (harness writes.go)
+    C19.sentinels rows problems   table (g): literals the shared option glue compares option values with (harness sentinels.go)
+    C19.io     kind name path flag runs   what "stdout" / "stdin" mean (Model/C19IO), see harness io.go
     C19.glue   set extra runs   option glue of the anchored commands (Model/C19Glue), see harness glueCases
     C19.format / C19.seed / C19.threads   the global options after parsing (Model/C19PreRun), see harness preRunCases
     C19.effect path template baseTemplate args baseArgs outcome baseOutcome
@@ -477,6 +481,57 @@ def handle (op : String) (f : List String) : Verdict :=
             else ⟨.pass, tags, ""⟩
           | [] => ⟨.pass, tags, ""⟩
     | _, _, _ => bad "C19.threads fields"
+  | "sentinels", [rs, problems] =>
+    -- table (g): "site,op,literal," each followed by ";"
+    match (splitTerm ";" rs).mapM parseStrList, parseStrList problems with
+    | some l, some probs =>
+      let parsed : List IO.SentinelRow := l.filterMap fun x => match x with
+        | [s, o, v] => some ⟨s, o, v⟩
+        | _ => none
+      if parsed.length != l.length then bad "C19.sentinels rows" else
+      let tags := ["nontrivial", "sentinels-" ++ toString parsed.length] ++ tagIf (parsed == Gen.C19Sentinels.rows) "same-as-proved-table"
+      if !probs.isEmpty then ⟨.tie, tags, "table (g): " ++ "; ".intercalate probs⟩ else
+      match parsed.filter fun r => !(IO.expectedRows.contains r), IO.expectedRows.filter fun r => !(parsed.contains r) with
+      | r :: _, _ => ⟨.tie, tags, "the shared option glue compares an option value in a way the models do not know: " ++ r.site ++ " " ++ r.op ++ " " ++ r.lit.quote ++
+          " (Model/C19IO, Model/C19PreRun are built from other literals)"⟩
+      | [], r :: _ => ⟨.tie, tags, "the shared option glue no longer makes the comparison the models are built from: " ++ r.site ++ " " ++ r.op ++ " " ++ r.lit.quote⟩
+      | [], [] => if parsed != Gen.C19Sentinels.rows then ⟨.tie, tags, "table (g) dumped at run time differs from Gen/C19Sentinels.lean"⟩ else ⟨.pass, tags, ""⟩
+    | _, _ => bad "C19.sentinels fields"
+  | "io", [kind, name, path, flag, runs] =>
+    -- runs: [value label, outcome]; out: "" stdout - out.txt; in: "" stdin - = file
+    match unescape path, (splitTerm ";" runs).mapM parseStrList with
+    | some path, some rs =>
+      let parsed := rs.filterMap fun x => match x with
+        | [v, o] => some (v, o)
+        | _ => none
+      if parsed.length != rs.length || parsed.isEmpty then bad "C19.io runs" else
+      let tags := ["nontrivial", "io-" ++ kind, "io-" ++ kind ++ "-" ++ name]
+      let outcomeOf (v : String) : Option String := (parsed.find? (·.1 == v)).map (·.2)
+      let dflt := if kind == "out" then IO.defaultOutput else IO.defaultInput
+      match outcomeOf "", outcomeOf dflt with
+      | some o0, some o1 =>
+        -- oracle (the property): option omitted = documented default spelled out; the defaults give a valid invocation
+        if o0 != o1 then ⟨.oracle, tags, clip 900 (path ++ ": " ++ flag ++ " omitted differs from the documented default " ++ dflt.quote ++ ": " ++ (clip 300 o0).quote ++ " vs " ++ (clip 300 o1).quote)⟩
+        else if !(runsOK o0) then ⟨.oracle, tags, clip 600 (path ++ " fails with " ++ flag ++ " left at its documented default: " ++ (clip 300 o0).quote)⟩
+        else if kind == "out" then
+          -- tie: the model of openWriteFile predicts every run from what the omitted run printed
+          match IO.stdoutOnly o0 with
+          | none => ⟨.tie, tags, clip 600 ("model of openWriteFile: with " ++ flag ++ " omitted (documented default \"stdout\") " ++ path ++ " does not only print to the standard output: " ++ (clip 300 o0).quote)⟩
+          | some printed =>
+            (match parsed.filter fun (v, o) => o != IO.predictOutput (if v == "" then dflt else v) printed with
+             | [] => ⟨.pass, tags ++ tagIf (parsed.any fun (v, _) => IO.openWriteTarget v != .stdout && v != "") "to-file", ""⟩
+             | (v, o) :: _ => ⟨.tie, tags, clip 900 ("model of openWriteFile: " ++ path ++ " " ++ flag ++ "=" ++ v ++ " predicted " ++
+                 (clip 300 (IO.predictOutput (if v == "" then dflt else v) printed)).quote ++ ", outcome " ++ (clip 300 o).quote)⟩)
+        else
+          -- tie: the model of OpenFile says which values mean the standard input; the file holds the same text, so
+          -- every run gives the outcome of the omitted one
+          (match parsed.filter fun (_, o) => o != o0 with
+           | [] => ⟨.pass, tags ++ tagIf (parsed.any fun (v, _) => v == "file") "from-file", ""⟩
+           | (v, o) :: _ => ⟨.tie, tags, clip 900 ("model of utils.OpenFile: " ++ path ++ " with " ++ flag ++ " " ++ (if v == "=" then "\"\"" else v) ++ " (source " ++
+               (if v == "file" then "the file" else if IO.openReadSource (if v == "=" then "" else v) == .stdin then "stdin" else "a file") ++
+               " with the same text) differs from the run with the option omitted: " ++ (clip 300 o).quote)⟩)
+      | _, _ => bad "C19.io: runs for the omitted option and for the documented default are needed"
+    | _, _ => bad "C19.io fields"
   | "roundtrip", [path, flag, typ, dflt, err, after] =>
     -- the model keeps values as the text Value.String() prints: Set(DefValue) must give DefValue back
     match unescape path, unescape flag, unescape dflt, unescape err, unescape after with
